@@ -49,7 +49,7 @@ def run_dopt(ctx, count, seed, modes=(0, 16)):
     lines = common.corpus(ctx.prop, ("DO ",))
     for m in modes:
         lines += common.harness_gen(harness, ["rand", seed + m, count // len(modes), m])
-    impl, _, _ = common.run_both([harness, "run"], None, lines, chunk=300)
+    impl, _, _ = common.run_both([harness, "run"], None, lines, chunk=300, timeout=300)
     res = {"runs": len(lines), "ops": 0, "best_ops": 0, "pass_ops": 0, "accepted": 0, "noleg": 0, "nontrivial": set(),
            "model_mismatch": [], "value_fail": [], "mono_fail": [], "legal_fail": [], "check_fail": [], "throw_fail": [], "crash": [],
            "lines": lines, "impl": impl, "op_kinds": {}}
